@@ -245,9 +245,10 @@ func rulesPersistGuard(c *Ctx, r *Report) {
 }
 
 func checkC10(c *Ctx, r *Report) {
-	r.Explain = "Files awaiting write-back are never deleted: all file removal in the store packages is confined to tabled functions; the entry deletion — the only one that removes a cached file on request, reached from delete requests, LRU eviction and both cleanup policies — reads the persist flag from disk on every path and removes nothing when it is true or unreadable; the flag is cleared only after a successful upload / synchronous write-back."
+	r.Explain = "Files awaiting write-back are never deleted: all file removal in the store packages is confined to tabled functions; the entry deletion — the only one that removes a cached file on request, reached from delete requests, LRU eviction and both cleanup policies — reads the persist flag from disk on every path and removes nothing when it is true or unreadable; the flag is cleared only after a successful upload / synchronous write-back. One clause of the cleanup sentence is structural and decided (R6): the on-disk last access time that cleanup reads is rewritten whenever the in-memory copy that throttles it advances."
 	r.NotDecided = "'Removes exactly the idle files' and the usage-driven ordering (TTL/TTI arithmetic, comparator values) — second sentence of the property."
 	rulesPersistGuard(c, r)
+	defer rulesAccessTimeCoupdate(c, r)
 	// cleanup policies use only the funnel
 	r5 := r.Rule("R5", "E-OWN", "the cleanup manager deletes only through FileOp.DeleteFile, and treats ErrFilePersisted as 'skip'", 2)
 	n := 0
